@@ -8,3 +8,8 @@ import JominiModel.Props.C16
 #print axioms Jomini.Props.C16.C16_group_is_stable_grouping
 #print axioms Jomini.Props.C16.C16_preserve_fields
 #print axioms Jomini.Props.C16.C16_object_modes
+#print axioms Jomini.Props.C16.C16_content
+#print axioms Jomini.Props.C16.C16_content_value
+#print axioms Jomini.Props.C16.C16_total
+#print axioms Jomini.Props.C16.C16_total_decidable
+#print axioms Jomini.Props.C16.C16_total_arr_partial
